@@ -28,6 +28,25 @@ dimensions (quick: one value each, thorough: all), pattern x folder and pattern 
 schemes on <= 3 folders, schemes {0, len/2} on 4. The listing reference does not depend on the profile.
 Result records: for every returned record get_full_path() must equal parent_path/name (clause fullpath) - in every
 evaluation of every family.
+
+Malformed bodies (fault kind "malformed JSON" beyond one ASCII spelling): BODY_KINDS = "body:<name>" for every name of
+MALFORMED_BODIES - a 200 response whose body is not a JSON text: empty | HTML error page | two JSON texts | NUL bytes | a gzip
+stream | a JSON text cut inside a multi-byte character | UTF-16 BOM + odd byte count | the HEALTHY body of that very request,
+sent as raw UTF-8, cut at half its length (cuthalf) / inside its first multi-byte character (cutchar). Oracle as for badjson:
+an error of the client's family, every response closed, the healthy retry complete. Explored at every request index of every
+FAULT_CALL (token, site lookup, first / next children page, folder path lookup): all kinds on libraries with <= 2 (thorough:
+3) folders at every page size; above that one kind per (library, call, request index), rotating, at one page size. Healthy
+bodies are also served as raw UTF-8 instead of ASCII escapes (extras rawutf8, plain listing, every library x page size).
+Well-formed JSON that is not an object is NOT in the alphabet (the statement speaks of malformed JSON).
+
+Folder-item timestamps: extras fdates = scheme s: folder F<j> carries lastModifiedDateTime FOLDER_TIMES[(j + s) % 6] and
+createdDateTime FOLDER_TIMES[(j + s + 2) % 6] (far older | 1 s older | equal | 1 s newer | far newer than T0 | absent) and a
+size, both as a child item and in the answer of the folder path lookup. Files keep their timestamps, so every combination
+"folder older / newer / undated relative to the bound x file before / at / after the bound" occurs. Per (library with >= 1
+folder, scheme): fdate_calls = plain listing, folder listing, every date dimension x value, (after, before) windows, date x
+folder paths / extensions / patterns, the *_since helpers with and without start folders (quick 31 calls, thorough 107).
+Quick: all 6 schemes on <= 2 folders, schemes {0, 3} on 3; thorough: all on <= 3, {0, 3} on 4. The reference ignores folder
+timestamps: the listing is defined by the files.
 """
 from __future__ import annotations
 
@@ -58,6 +77,26 @@ SPELL_ZONES = [120, 0, -300, 330, 840, -720]
 PROFILES = ["plain", "li-custom", "li-system", "li-structured", "li-nofields", "li-null", "lean", "rich"]
 PATTERNS_EXTRA = [["?.pdf"], ["*.PDF"], ["A/*", "*.txt"], ["[ab].*"]]
 FAULT_KINDS = ["http400", "http401", "http404", "http429", "http500", "http503", "urlerror", "badjson", "status302", "status500"]
+# malformed response bodies (status 200, body is not a JSON text): what a broken proxy / an interrupted transfer / a wrong
+# Content-Encoding delivers. Text garbage first, then bodies that are not even valid UTF-8; "cuthalf" / "cutchar" are the
+# HEALTHY body of that request (served as raw UTF-8, like Graph does) cut at half its length / in the middle of its first
+# multi-byte character (last byte dropped when it has none). The order is the shrink order (simplest first).
+MALFORMED_BODIES = {
+    "empty": b"",
+    "html": b"<!DOCTYPE html><html><body><h1>502 Bad Gateway</h1></body></html>",
+    "trailing": b'{"value": []}{"value": []}',
+    "nul": b"\x00\x00\x00\x00",
+    "gzip": b"\x1f\x8b\x08\x00\x00\x00\x00\x00\x00\x03\xabV*K\xcc)MU\xb2\x8a\x8e\x05\x00",
+    "cutmb": b'{"value": [{"name": "\xc3',
+    "utf16odd": b'\xff\xfe{\x00"\x00v',
+    "cuthalf": None,
+    "cutchar": None,
+}
+BODY_KINDS = ["body:" + n for n in MALFORMED_BODIES]
+# folder-item timestamps (extras fdates = scheme s): folder number j (F<j>) carries lastModifiedDateTime FOLDER_TIMES[(j + s) % len]
+# and createdDateTime FOLDER_TIMES[(j + s + 2) % len] (None = member absent): far older / 1 s older / equal / 1 s newer / far newer
+# than T0, or missing. A folder's own timestamps say nothing about the files below it.
+FOLDER_TIMES = ["2019-06-01T08:00:00Z", "2024-01-15T10:29:59Z", "2024-01-15T10:30:00Z", "2024-01-15T10:30:01Z", "2031-03-01T08:00:00Z", None]
 
 
 # ---------------------------------------------------------------- library enumeration
@@ -167,7 +206,7 @@ class Transport:
         if k[0] == "d":
             # the folder facet's childCount is optional in Graph: every other folder omits it
             facet = {"childCount": len(k[2])} if (len(k[1]) + len(k[2])) % 2 == 0 else {}
-            return {"name": k[1], "id": self._ids[id(k)], "folder": facet, "webUrl": "u"}
+            return self._folder_dates({"name": k[1], "id": self._ids[id(k)], "folder": facet, "webUrl": "u"})
         name, ti, variant = k[1], k[2], k[3]
         it = {"name": name, "id": f"f{idx}-{name}", "webUrl": "https://h/" + urllib.parse.quote(name), "file": {"mimeType": "application/x"}, "size": 10 + ti}
         if variant != "nodates":
@@ -181,6 +220,34 @@ class Transport:
             it["listItem"] = {"fields": {"Dept": "X", "id": "1"}}
         return it
 
+    def _folder_dates(self, it):
+        """extras fdates: the folder item (in a children listing and in the path lookup) carries its own timestamps and size"""
+        fd = self.extras.get("fdates")
+        if fd is not None:
+            j = int(it["id"][1:])
+            for key, off in (("lastModifiedDateTime", 0), ("createdDateTime", 2)):
+                t = FOLDER_TIMES[(j + fd + off) % len(FOLDER_TIMES)]
+                if t is not None:
+                    it[key] = t
+            it["size"] = 1000 + j
+        return it
+
+    def _dump(self, ans, raw=False):
+        return json.dumps(ans, ensure_ascii=not (raw or self.extras.get("rawutf8"))).encode("utf-8")
+
+    def _malformed(self, name, url):
+        body = MALFORMED_BODIES[name]
+        if body is not None:
+            return body
+        try:
+            good = self._dump(self.answer(url), raw=True)
+        except KeyError:
+            good = b'{"error": {"code": "itemNotFound", "message": "\xc3\xbc"}}'
+        if name == "cuthalf":
+            return good[:len(good) // 2]
+        lead = [i for i, b in enumerate(good) if b >= 0xC0]
+        return good[:lead[0] + 1] if lead else good[:-1]
+
     def __call__(self, req, timeout=None):
         k = self.n
         self.n += 1
@@ -188,6 +255,8 @@ class Transport:
         self.urls.append(url)
         kind = self.faults.get(k)
         if kind:
+            if kind.startswith("body:"):
+                return Resp(200, self._malformed(kind[5:], url), self.resps)
             if kind.startswith("http"):
                 raise HTTPError(url, int(kind[4:]), "err", {}, io.BytesIO(b'{"error":"x"}'))
             if kind == "urlerror":
@@ -200,7 +269,7 @@ class Transport:
             ans = self.answer(url)
         except KeyError:
             raise HTTPError(url, 404, "not found", {}, io.BytesIO(b'{"error":"itemNotFound"}'))
-        return Resp(200, json.dumps(ans).encode(), self.resps)
+        return Resp(200, self._dump(ans), self.resps)
 
     def answer(self, url):
         if "login.microsoftonline" in url:
@@ -236,7 +305,7 @@ class Transport:
             p = path.split("/root:/")[1]
             if p in self.paths:
                 cid, k = self.paths[p]
-                return {"name": k[1], "id": cid, "folder": {}}
+                return self._folder_dates({"name": k[1], "id": cid, "folder": {}})
             # maybe a file path
             raise KeyError(p)
         raise AssertionError("unexpected url " + url)
@@ -614,6 +683,17 @@ def shrinks(case):
         c = dict(case)
         c["extras"] = {}
         yield c
+    faults = case.get("faults") or {}
+    for k, kind in faults.items():                        # a malformed body -> a simpler malformed body (order of MALFORMED_BODIES)
+        if kind in BODY_KINDS:
+            for simpler in BODY_KINDS[:BODY_KINDS.index(kind)]:
+                c = dict(case)
+                c["faults"] = dict(faults, **{k: simpler})
+                yield c
+    if faults and call != ["all"]:                        # the same fault under the plain listing
+        c = dict(case)
+        c["call"] = ["all"]
+        yield c
 
 
 def _zclass(v):
@@ -636,6 +716,8 @@ def fingerprint_view(case):
         c["extras"] = dict(c["extras"], tzspell="any")
     if (c.get("extras") or {}).get("shape") is not None:
         c["extras"] = dict(c["extras"], shape="any")
+    if (c.get("extras") or {}).get("fdates") is not None:
+        c["extras"] = dict(c["extras"], fdates="any")
     return c
 
 
@@ -786,6 +868,59 @@ def shape_calls(tier):
     yield ["created_since", 0, ["A"], [".pdf"]]
 
 
+def fdate_calls(tier):
+    """Calls evaluated against libraries whose FOLDER items carry their own timestamps (extras fdates), see FOLDER_TIMES: the
+    listing is defined by the files; a folder's own dates (of the start folder or of any folder on the way) never decide."""
+    quick = tier == "quick"
+    base = {k: v[0] for k, v in FILTER_DIMS.items()}
+    vals = [-1000, 0, 1000] if quick else DATE_VALUES[1:]
+    yield ["all"]
+    yield ["folder", "A"]
+    dims = ("modified_after", "modified_before", "created_after", "created_before")
+    for dim in dims:
+        for v in vals:
+            f = dict(base)
+            f[dim] = v
+            yield ["filtered", f]
+    for fld in ("modified", "created"):
+        for va, vb in (((-1000, 1000), (0, 1000)) if quick else ((-1000, 1000), (0, 1000), (0, 500), (-1000, 0), (1000, 0))):
+            f = dict(base)
+            f[fld + "_after"] = va
+            f[fld + "_before"] = vb
+            yield ["filtered", f]
+    for dim in (dims[:1] if quick else dims):
+        for v in ([0] if quick else [-1000, 0, 1000]):
+            for other, ovals in (("folder_paths", FILTER_DIMS["folder_paths"][1:]), ("extensions", [[".pdf"]]), ("path_patterns", [["A/*"]])):
+                for vo in ovals:
+                    f = dict(base)
+                    f[dim] = v
+                    f[other] = vo
+                    yield ["filtered", f]
+    for since in (-1000, 0, 1000):
+        yield ["modified_since", since, [], []]
+    yield ["modified_since", 0, ["A"], []]
+    yield ["modified_since", [0, ZONES_QUICK[0]], ["A", "C d"], []]
+    yield ["created_since", 0, [], []]
+    yield ["created_since", 0, ["A/B"], [".pdf"]]
+
+
+def fdate_schemes(tier, nfolders):
+    if nfolders == 0:
+        return []
+    full = nfolders <= (2 if tier == "quick" else 3)
+    return list(range(len(FOLDER_TIMES))) if full else [0, len(FOLDER_TIMES) // 2]
+
+
+def body_kinds_for(tier, nfolders, i, call_idx, page_is_last, kk):
+    """Malformed-body alphabet per (library i, call, request index kk): all of BODY_KINDS on libraries with <= 2 (thorough: 3) folders;
+    above, one kind per request index (rotating with library number, call and index) at one page size."""
+    if nfolders <= (2 if tier == "quick" else 3):
+        return BODY_KINDS
+    if not page_is_last:
+        return []
+    return [BODY_KINDS[(i + call_idx + kk) % len(BODY_KINDS)]]
+
+
 def shape_schemes(tier, nfolders):
     full = nfolders <= (2 if tier == "quick" else 3)
     return list(range(len(PROFILES))) if full else [0, len(PROFILES) // 2]
@@ -860,8 +995,19 @@ def _part(arg):
                         outs["shaped:" + str(info.get("out"))] = outs.get("shaped:" + str(info.get("out")), 0) + 1
                         for clause, msg in f:
                             fails.append((clause, "healthy", case, msg))
-            # extras: non-dict item, item without facet
-            for extras in ({"nondict": 1}, {"nofacet": 1}):
+            # folder items with their own timestamps (independent of pagination: one page size)
+            if page == pages[-1]:
+                for fd in fdate_schemes(tier, nfolders):
+                    for call in fdate_calls(tier):
+                        case = {"lib": lib, "page": page, "call": call, "extras": {"fdates": fd}}
+                        f, info = run_case(case)
+                        ev += 1
+                        requests += info.get("n", 0)
+                        outs["fdated:" + str(info.get("out"))] = outs.get("fdated:" + str(info.get("out")), 0) + 1
+                        for clause, msg in f:
+                            fails.append((clause, "healthy", case, msg))
+            # extras: non-dict item, item without facet, bodies sent as raw UTF-8 instead of \u escapes
+            for extras in ({"nondict": 1}, {"nofacet": 1}, {"rawutf8": 1}):
                 case = {"lib": lib, "page": page, "call": ["all"], "extras": extras}
                 f, info = run_case(case)
                 ev += 1
@@ -869,12 +1015,12 @@ def _part(arg):
                 for clause, msg in f:
                     fails.append((clause, "healthy", case, msg))
             # faults
-            for call in FAULT_CALLS:
+            for ci, call in enumerate(FAULT_CALLS):
                 base = {"lib": lib, "page": page, "call": call}
                 f0, info0 = run_case(base)
                 nreq = info0.get("n", 0)
                 for kk in range(nreq):
-                    for kind in FAULT_KINDS:
+                    for kind in FAULT_KINDS + body_kinds_for(tier, nfolders, i, ci, page == pages[-1], kk):
                         case = dict(base)
                         case["faults"] = {str(kk): kind}
                         f, info = run_case(case)
@@ -934,13 +1080,22 @@ def run(ctx):
                    + " schemes on <= " + str(2 if ctx.quick else 3) + " folders, 2 schemes above: every file gets every profile) x "
                    + str(len(list(shape_calls(ctx.tier)))) + " calls (listing, folder listings, extensions / path patterns incl. " + str(PATTERNS_EXTRA)
                    + " / folder paths, dates, pairs, *_since); every returned record's get_full_path() == parent_path/name in all families; "
+                   "malformed bodies: " + str(len(BODY_KINDS)) + " kinds " + str(list(MALFORMED_BODIES)) + " (text garbage, non-UTF-8 garbage, the healthy "
+                   "body cut at half length / inside a multi-byte character) at every request index of the 4 fault calls: all kinds on <= "
+                   + str(2 if ctx.quick else 3) + " folders, one rotating kind per (library, call, index) above; healthy bodies also as raw UTF-8; "
+                   "folder-item timestamps: " + str(len(FOLDER_TIMES)) + " values " + str(FOLDER_TIMES) + " assigned by scheme (all schemes on <= "
+                   + str(2 if ctx.quick else 3) + " folders, schemes {0, 3} above) x " + str(len(list(fdate_calls(ctx.tier)))) + " calls (dates, windows, "
+                   "date x folder paths / extensions / patterns, *_since); "
                    "distinct_nontrivial = distinct (phase, fault kind, outcome) classes",
            "transport_requests": req, "outcomes": outs, "samples": samples[:5], "exhaustive": True,
            "bounds": {"folders": 3 if ctx.quick else 4, "files_per_folder": 2, "page_sizes": "1..2" if ctx.quick else "1..3", "fault_depth": 1 if ctx.quick else 2,
                       "bound_zones_min": ZONES_QUICK if ctx.quick else ZONES_THOROUGH, "item_offset_spellings": 2 if ctx.quick else len(SPELL_ZONES),
                       "zoned_calls_per_library": len(list(zone_calls(ctx.tier))), "spelled_calls_per_library_and_scheme": len(list(spell_calls(ctx.tier))),
                       "item_profiles": PROFILES, "shape_schemes": {"full_up_to_folders": 2 if ctx.quick else 3, "above": [0, len(PROFILES) // 2]},
-                      "shaped_calls_per_library_and_scheme": len(list(shape_calls(ctx.tier)))}}
+                      "shaped_calls_per_library_and_scheme": len(list(shape_calls(ctx.tier))),
+                      "malformed_body_kinds": BODY_KINDS, "malformed_bodies_full_up_to_folders": 2 if ctx.quick else 3,
+                      "folder_times": FOLDER_TIMES, "folder_time_schemes": {"full_up_to_folders": 2 if ctx.quick else 3, "above": [0, len(FOLDER_TIMES) // 2]},
+                      "folder_dated_calls_per_library_and_scheme": len(list(fdate_calls(ctx.tier)))}}
     return {"coverage": cov, "failures": fails, "harness_errors": herr,
             "assumptions": ["fake transport models Graph children / root:/path / token / site-id URLs with skip-style nextLink",
                             "HTTP 404 at the folder-lookup request is documented 'folder not found' behaviour and is not judged",
@@ -949,5 +1104,9 @@ def run(ctx):
                             "which optional members (listItem / custom columns, size, webUrl, mimeType, downloadUrl, eTag, parentReference, "
                             "fileSystemInfo ...) a drive item carries does not change the listing; item name, id, facet and item-level timestamps "
                             "define it. The full path of a returned record is read through its get_full_path() accessor",
+                            "a 200 response whose body is not a JSON text (whatever its bytes: text, binary, a cut-off healthy body) is the fault kind "
+                            "'malformed JSON'; a well-formed JSON value that is not an object is not explored",
+                            "a folder item's own timestamps / size do not define the listing (a folder's lastModifiedDateTime is no bound for the "
+                            "files below it); only the files' timestamps are compared with the date bounds",
                             "an aware datetime bound and an ISO-8601 timestamp with a numeric offset denote instants; the filters are judged on instants. "
                             "Naive (tz-less) bounds have no defined instant and are not explored"]}
